@@ -109,9 +109,28 @@ def _deep(n):
     return x
 
 
+class PrintsAs:
+    """An object that is not a string but whose str() is a given text (e.g. a declared enum value name)."""
+
+    def __init__(self, text):
+        self.text = text
+
+    def __str__(self):
+        return self.text
+
+    def __repr__(self):
+        return "PrintsAs(%r)" % self.text
+
+
 class UnprintableError(Exception):
     def __str__(self):
         raise RuntimeError("this exception cannot be printed")
+
+
+def _odd_message():
+    e = ValueError("text")
+    e.message = {"not": "a string"}
+    return e
 
 
 def _multiple(*excs):
@@ -143,7 +162,7 @@ FACTORIES = [
     lambda: _selfref_list(), lambda: _selfref_dict(), lambda: _deep(60), lambda: NotImplemented, lambda: Ellipsis,
     lambda: memoryview(b"mv"),
     # exceptions that are awkward to report: unprintable, oversized (3.12 int->str limit), the library's own container
-    lambda: UnprintableError(), lambda: ValueError(10 ** 5000), lambda: _multiple(), lambda: _multiple(ValueError("inner"), KeyError("k")),
+    lambda: UnprintableError(), lambda: ValueError(10 ** 5000), lambda: _odd_message(), lambda: _multiple(), lambda: _multiple(ValueError("inner"), KeyError("k")),
     lambda: decimal.Decimal("1e999"), lambda: decimal.Decimal("-1e999"), lambda: fractions.Fraction(10 ** 400, 3),
 ]
 
